@@ -1,3 +1,4 @@
+pub mod aio;
 pub mod gen;
 pub mod interp;
 pub mod protos;
@@ -6,4 +7,12 @@ pub mod tree;
 /// Silence the default panic printer: panics of the code under test are data.
 pub fn quiet_panics() {
     std::panic::set_hook(Box::new(|_| {}));
+}
+
+/// serde_json with the recursion limit lifted (value trees nest deeper than 128 JSON levels).
+pub fn parse_json(s: &str) -> serde_json::Value {
+    use serde::Deserialize;
+    let mut de = serde_json::Deserializer::from_str(s);
+    de.disable_recursion_limit();
+    serde_json::Value::deserialize(&mut de).unwrap_or_else(|e| panic!("harness: bad json: {e}"))
 }
